@@ -18,6 +18,7 @@ import (
 	"strconv"
 	"strings"
 	"sync"
+	"time"
 
 	"github.com/styrainc/regal/pkg/report"
 	"github.com/styrainc/regal/pkg/rules"
@@ -441,6 +442,10 @@ func main() {
 	}
 	out := hutil.NewOut(outPath)
 	defer out.Close()
+	start := time.Now()
+	defer func() {
+		out.Emit(map[string]any{"kind": "timing", "procs": procs, "seconds": time.Since(start).Seconds()})
+	}()
 	ctx := context.Background()
 	rng := hutil.NewRng(hutil.SeedFromEnv())
 	// optional: a JSON list of fixed workspaces (corpus / replay) run first; "only" skips the generated ones
